@@ -5,7 +5,8 @@ construct, and what `dpkt.pcapng.Writer` 1.9.8 writes around them. Core Lean onl
 Source mirrored
   * tlexport/output_builder.py 80-177: `Ether(src,dst)/IP|IPv6(src,dst)/TCP(sport,dport,flags,seq,ack)[/Raw(part)]`
   * tlexport/quic/quic_output_builder.py 54-109: `Ether(src,dst)/IP|IPv6(src,dst)/UDP(sport,dport)/Raw(bytes(packets))`
-  * tlexport/main.py 286-291: `writer = dpkt.pcapng.Writer(file, snaplen=20000)`, `writer.writepkt(bytes(buf), ts)`
+  * tlexport/main.py 286-291: `writer = dpkt.pcapng.Writer(file, snaplen=N)` — `N` is REGENERATED from the
+    tree under test into `Gen.writerSnaplen` (harness/ob_outbytes.py `regen`; 20000 before the C06 repair, 262144 after), `writer.writepkt(bytes(buf), ts)`
   * scapy (library contract, MEASURED on the installed 2.7.0 and compared byte for byte on every run by
     harness/ob_outbytes.py):
       - `Packet.do_build`: `self_build()` of every layer from the outside in (a field that does not hold its value
@@ -30,7 +31,7 @@ Source mirrored
   * dpkt `pcapng.Writer.__init__` / `writepkt` / `writepkt_time`, `SectionHeaderBlockLE.__bytes__`,
     `InterfaceDescriptionBlockLE.__bytes__`, `EnhancedPacketBlockLE.__bytes__` (MEASURED): little endian;
     SHB = type 0x0A0D0D0A, length 28, byte-order magic 0x1A2B3C4D, version 1.0, section length -1, no options;
-    IDB = type 1, length 20, linktype 1 (Ethernet), reserved 0, snaplen 20000, no options; per packet an EPB =
+    IDB = type 1, length 20, linktype 1 (Ethernet), reserved 0, snaplen `N`, no options; per packet an EPB =
     type 6, length 32 + align4(n), interface 0, ts_high = us >> 32, ts_low = us & 0xffffffff, caplen = pkt_len = n
     (NOT clipped by snaplen), the data padded with zeros to 32 bits, no options, the length again. Every field goes
     through `struct.pack('<I')`: `struct.error` for a time stamp ≥ 2^64 µs or a block length ≥ 2^32.
@@ -47,6 +48,7 @@ Not modelled: scapy's route/ARP lookups (not triggered: every address is given),
 -/
 import TLX.Pipeline
 import TLX.Quic.UdpOut
+import TLX.Gen.WriterConsts
 namespace TLX.OutBytes
 open TLX
 
@@ -255,11 +257,11 @@ def epbs : List (Bytes × Nat) → Except Err Bytes
       | .error e => .error e
       | .ok r => .ok (b ++ r)
 
-/-- the file `Writer(file, snaplen=20000)` + `writepkt(frame, ts)` for every `(frame, µs)` leave behind -/
+/-- the file `Writer(file, snaplen=Gen.writerSnaplen)` + `writepkt(frame, ts)` for every `(frame, µs)` leave behind -/
 def pcapng (pkts : List (Bytes × Nat)) : Except Err Bytes :=
   match epbs pkts with
   | .error e => .error e
-  | .ok body => .ok (shb ++ idb 20000 ++ body)
+  | .ok body => .ok (shb ++ idb Gen.writerSnaplen ++ body)
 
 /-- the write loop of main.py 290-291: `bytes(buf)` and `writepkt` alternate, so the first exception in file order wins -/
 def fileBody : List Frame → Except Err Bytes
@@ -279,7 +281,7 @@ def fileBody : List Frame → Except Err Bytes
 def fileOfFrames (fs : List Frame) : Except Err Bytes :=
   match fileBody fs with
   | .error e => .error e
-  | .ok body => .ok (shb ++ idb 20000 ++ body)
+  | .ok body => .ok (shb ++ idb Gen.writerSnaplen ++ body)
 
 /-- … for the TLS export of `Pipeline` -/
 def fileOf (pkts : List Pipeline.OutPkt) : Except Err Bytes := fileOfFrames (pkts.map Frame.ofOutPkt)
